@@ -139,4 +139,20 @@ theorem convertTo_regs (p : Params) (s : St ν) (tt : TType) (hsz : s.regs.size 
     rw [replayRegs_eq]
     cases tt <;> exact hf.2.1
 
+theorem copyAs_preserves (p : Params) (s : St ν) (tt : TType)
+    (hsz : s.mode = .hll → s.regs.size = 2^s.lgK) (hk : s.lgK ≤ p.keyBits) :
+    (copyAs p s tt).mode = s.mode ∧ (copyAs p s tt).lgK = s.lgK ∧ (copyAs p s tt).tt = tt ∧
+    (copyAs p s tt).regs = s.regs ∧ (s.mode ≠ .hll → (copyAs p s tt).items = s.items) := by
+  unfold copyAs
+  cases hm : s.mode with
+  | hll =>
+    simp only
+    by_cases hc : tt = s.tt ∧ s.rebuild = false
+    · rw [if_pos hc]; exact ⟨hm, rfl, hc.1.symm, rfl, fun h => absurd rfl h⟩
+    · rw [if_neg hc]
+      have h := convertTo_regs p s tt (hsz hm) hk
+      exact ⟨h.2.2.1, h.2.1, h.2.2.2, h.1, fun h => absurd rfl h⟩
+  | list => simp [St.items]
+  | set => simp [St.items]
+
 end DS.Hll
